@@ -20,7 +20,7 @@ class ForkExplorer(Explorer):
     super().__init__(base_pc, max_paths=max_paths, timeout_s=timeout_s, **kw)
     s.leaf = leaf
     s.root = os.getpid()
-    fd, s.out = tempfile.mkstemp(prefix='forkx_', suffix='.jsonl')
+    fd, s.out = tempfile.mkstemp(prefix='forkx_', suffix='.jsonl', dir=os.environ.get('VERIF_SCRATCH') or None)
     os.close(fd)
     s.child_failed = False
 
